@@ -272,6 +272,43 @@ class Analysis:
                         ok = False
         return ok and n_adds > 0
 
+    def local_dict(self, u):
+        """(name, Dict node) when the unit builds its result as `name = {..literal..}` (bound once) and returns `name`"""
+        binds = [n for n in walk_no_nested(u.fn) if isinstance(n, ast.Assign) and len(n.targets) == 1 and isinstance(n.targets[0], ast.Name)]
+        rets = [n for n in walk_no_nested(u.fn) if isinstance(n, ast.Return) and isinstance(n.value, ast.Name)]
+        for r in rets:
+            same = [b for b in binds if b.targets[0].id == r.value.id]
+            if len(same) == 1 and isinstance(same[0].value, ast.Dict):
+                return r.value.id, same[0].value
+        return None
+
+    def key_adds_lowered(self, u, name, key, init):
+        """the collection kept under name[key]: starts empty, every `name[key].add(x)` / `.append(x)` in the unit and its nested functions passes a lowered x,
+        and it is only ever re-bound to a filtered copy of itself"""
+        empty = (isinstance(init, (ast.Set, ast.List)) and not init.elts) or (isinstance(init, ast.Call) and dotted(init.func) in ('set', 'list') and not init.args)
+        if not empty:
+            return False
+        ok, n_adds = True, 0
+
+        def is_slot(e):
+            return isinstance(e, ast.Subscript) and isinstance(e.value, ast.Name) and e.value.id == name and const_str(e.slice) == key
+        for sub in [u] + [x for x in self.units if x.outer is u]:
+            for n in walk_no_nested(sub.fn):
+                if isinstance(n, ast.Call) and isinstance(n.func, ast.Attribute) and n.func.attr in ('add', 'append') and is_slot(n.func.value) and n.args:
+                    n_adds += 1
+                    st = self.state_at(sub, n)
+                    if st is None or not self.lowered(n.args[0], st, sub):
+                        ok = False
+                elif isinstance(n, ast.Call) and isinstance(n.func, ast.Attribute) and is_slot(n.func.value) and n.func.attr in ('update', 'extend', 'insert', '__setitem__'):
+                    ok = False
+                elif isinstance(n, ast.Assign) and any(is_slot(t) for t in n.targets):
+                    v = n.value
+                    filt = isinstance(v, (ast.ListComp, ast.SetComp)) and len(v.generators) == 1 and is_slot(v.generators[0].iter) \
+                        and isinstance(v.elt, ast.Name) and isinstance(v.generators[0].target, ast.Name) and v.elt.id == v.generators[0].target.id
+                    if not filt:
+                        ok = False
+        return ok and n_adds > 0
+
     def state_at(self, u, node):
         res = self.states.get(id(u))
         if res is None:
@@ -296,6 +333,11 @@ class Analysis:
                     for k in r.value.keys:
                         if const_str(k) is not None:
                             self.dict_norm[(u.key, k.value)] = True
+            ld = self.local_dict(u)
+            if ld is not None:
+                for k in ld[1].keys:
+                    if const_str(k) is not None:
+                        self.dict_norm[(u.key, k.value)] = True
         callers = {}
         for it in range(12):
             changed = False
@@ -329,6 +371,15 @@ class Analysis:
                             if self.dict_norm.get((u.key, k.value)) != ok:
                                 self.dict_norm[(u.key, k.value)] = ok
                                 changed = True
+                ld = self.local_dict(u)
+                if ld is not None:
+                    for k, v in zip(ld[1].keys, ld[1].values):
+                        if const_str(k) is None:
+                            continue
+                        ok = self.key_adds_lowered(u, ld[0], k.value, v)
+                        if self.dict_norm.get((u.key, k.value)) != ok:
+                            self.dict_norm[(u.key, k.value)] = ok
+                            changed = True
             # params
             seen_calls = {}
             for u in self.units:
@@ -579,7 +630,7 @@ def run(ctx):
     ctx.floor('catalog_stores', 7)
     ctx.floor('lookups', 6)
     ctx.floor('fetch_step_sites', 4)
-    ctx.floor('name_comparisons', 2)
+    ctx.floor('name_comparisons', 1)        # the comparison inside prepare_integration_select is decided by the interpreted rewrite table, wherever it is written
     ctx.sample({'normalised_returns': sorted(f'{k[0]}[{k[1]}]' for k, v in an.ret_norm.items() if v and k[0] in ('QueryPlanner.resolve_database_table', 'PlanJoin.check_single_integration'))})
     ctx.sample({'normalised_dict_entries': sorted(f'{k[0]}[{k[1]!r}]' for k, v in an.dict_norm.items() if v)})
 
